@@ -238,6 +238,30 @@ fn check_valuation(ann: Ann, same_commodity: bool) -> (bool, bool) {
             assert!(!(has_ann && same_commodity), "C01: cost / lot in the amount's own commodity accepted");
             let bal = cp.calculate_balance_amount();
             let conv = cp.calculate_converted_amount();
+            // C09: the ledger-derived price this posting feeds into the price store: none without an annotation;
+            // otherwise the written cost (the current price), else the lot price: `@ r` / `{r}` say 1 X = r,
+            // `@@ t` / `{{t}}` say |v| X = t.
+            let ev = posting_price_event(date0(), cp);
+            match (&ev, ann) {
+                (Ok(None), Ann::None) => {}
+                (Ok(Some(e)), a) if a != Ann::None => {
+                    assert!(e.date == date0(), "C09: price event not dated by the transaction");
+                    let (is_total, pr, pc): (bool, Decimal, &str) = match a {
+                        Ann::CostTotal | Ann::LotTotal => (true, r1, "Y"),
+                        Ann::LotRateCostRate => (false, r2, "Z"),
+                        _ => (false, r1, "Y"),
+                    };
+                    assert!(e.price_x.commodity.as_str() == "X", "C09: price event is not about the posting's commodity");
+                    if is_total {
+                        assert!(e.price_x.value == v.abs(), "C09: a total price must be recorded for the quantity it was paid for");
+                    } else {
+                        assert!(e.price_x.value == Decimal::ONE, "C09: a per-unit price must be recorded for one unit");
+                    }
+                    assert!(e.price_y.value == pr && e.price_y.commodity.as_str() == pc, "C09: the recorded price is not the written cost (else lot) price");
+                }
+                _ => panic!("C09: a posting without cost / lot records a price, or a priced posting records none"),
+            }
+            core::mem::forget(ev);
             match ann {
                 Ann::None => {
                     let b = bal.expect("plain amount has a balancing value");
